@@ -65,7 +65,8 @@ def crashed_in_repo(stderr):
     if not stderr or not re.search(r'^(panic:|fatal error:)', stderr, re.M):
         return False
     # first goroutine block after the panic line
-    m = re.search(r'^goroutine \d+ \[[^\]]*\]:\n((?:.+\n?)*)', stderr, re.M)
+    # (a fatal error prints "goroutine 1 gp=0x... m=0 mp=0x... [running]:")
+    m = re.search(r'^goroutine \d+[^\[\n]*\[[^\]]*\]:\n((?:.+\n?)*)', stderr, re.M)
     if not m:
         return False
     files = re.findall(r'^\t(\S+\.go):\d+', m.group(1), re.M)
